@@ -295,6 +295,7 @@ class Ifd(Driver):
     ctype = 'ifd_case'
     ctor = 'Build_ifd_case'
     modname = 'simulators.if_distributor.IFD'
+    corr_scale = 0.5          # 21 board strings per case: heavier cases
 
     def new(self):
         import importlib
@@ -460,12 +461,231 @@ class Ifd(Driver):
         ('write', ['', '\n', 'lo', 'S 0 10 50 1.\n', 'out', None, []]),
     ])
 
+
+# ---------------------------------------------------------------------------
+# IFD_14_channels
+
+class Ifd14(Driver):
+    name = 'ifd14'
+    alphabet = '#ATSW *IDNR?0123456789\n-+_.\t'
+    terminators = '\n'
+    maxlen = 12
+    corr_import = 'From DS Require Import Model.SmaCommon Corr.SmaIfd14Corr.'
+    ctype = 'i14_case'
+    ctor = 'Build_i14_case'
+    corr_scale = 0.5          # 96 channel strings per case
+
+    def new(self):
+        import simulators.if_distributor.IFD_14_channels as m
+        return m.System()
+
+    def is_header(self, ch):
+        return ch == '#'
+
+    def snapshot(self, s):
+        return '%s [%s] %s' % (zlist([ord(c) for c in s.msg]),
+                               '; '.join(zlist([ord(c) for c in str(x * s.att_step)]) for x in s.channels),
+                               'true' if s.switched else 'false')
+
+    def valid_line(self, rng):
+        k = rng.randrange(10)
+        ch = rng.choice([0, 1, 5, 9, 10, 42, 95, rng.randrange(96)])
+        if k < 3:
+            return '#ATT %d %d\n' % (ch, rng.choice([0, 1, 2, 3, 126, 100, rng.randrange(127)]))
+        if k < 5:
+            return '#ATT %d?\n' % ch
+        if k == 5:
+            return '#SWT %d %d\n' % (ch, rng.randrange(2))
+        if k == 6:
+            return '#SWT %d?\n' % ch
+        if k == 7:
+            return '#*IDN?\n'
+        if k == 8:
+            return '#*RST\n'
+        return '#ATT %d %d\n' % (rng.randrange(96), rng.randrange(127))
+
+    def odd_line(self, rng):
+        return rng.choice([
+            '#ATT 96 1', '#ATT -1 1', '#ATT 5 127', '#ATT 5 -1', '#ATT 5 200', '#ATT 5', '#ATT', '#ATT 5 1 1', '#ATT x 1',
+            '#ATT 5 x', '#ATT 5 1.0', '#ATT 5.0 1', '#ATT +5 +1', '#ATT 0_5 1_0', '#ATT 5_ 1', '#ATT  5  1', '#ATT\t5 1',
+            '#ATT\t5\t1', '#att 5 1', '#ATX 5 1', '#ATT 05 01', '#ATT -0 0', '# ATT 5 1', '#ATT 5 1 ',
+            '#SWT 5 2', '#SWT 5 -1', '#SWT 96 1', '#SWT 5', '#SWT x 1', '#SWT 5 01', '#SWT 5 x',
+            '#ATT 5?', '#ATT 96?', '#ATT -1?', '#ATT?', '#ATT ?', '#ATT 5 ?', '#ATT 5??', '#ATT? 5', '#?ATT 5', '#ATT x?',
+            '#ATT 5 1?', '#SWT 96?', '#SWX 5?', '#att 5?', '#ATT  5?', '#ATT 5 ? ?', '#ATT ?5',
+            '#*IDN?', '#*IDN', '#*IDN? ', '#*RST', '#*RST ', '#*RST?', '#RST', '#', '##', '#?', '# ', '#  ', '# ?', '#X',
+            '#AT#T 5 1', '#ATT 5#1', '#\x85 1', '#A\xa0B 1', '#ATT\x1f5 1',
+        ]) + '\n'
+
+    def queries(self):
+        return ['#ATT %d?\n' % c for c in range(96)] + ['#SWT %d?\n' % c for c in (0, 17, 95)] + ['#*IDN?\n']
+
+    def wf_reply(self, r):
+        import re
+        return r in ('#0\n', '#1\n', 'SRT IF Distributor Simulator 1.0', '#COMMAND UNKNOWN\n') or \
+            bool(re.fullmatch(r'#[0-9]+\.(0|25|5|75)\n', r))
+
+    registers = ('att', 'swt')
+
+    def sample_write(self, rng, reg):
+        r = rng.random()
+        if reg == 'att':
+            if r < 0.55:
+                ch, v = rng.randrange(96), rng.randrange(127)
+                return '#ATT %d %d\n' % (ch, v), 'in', (ch, v)
+            return rng.choice(['#ATT 5 127', '#ATT 5 -1', '#ATT 96 1', '#ATT -1 5', '#ATT 5', '#ATT 5 x', '#ATT x 5',
+                               '#ATT 5 1.5', '#ATX 5 1', '#ATT 5 1 1', '#ATT 5 999']) + '\n', 'out', None
+        if r < 0.55:
+            ch, v = rng.randrange(96), rng.randrange(2)
+            return '#SWT %d %d\n' % (ch, v), 'in', (ch, v)
+        return rng.choice(['#SWT 5 2', '#SWT 5 -1', '#SWT 96 1', '#SWT 5', '#SWT 5 x', '#SWT x 1', '#SWT 5 1 1']) + '\n', 'out', None
+
+    def is_ack(self, outs):       # no acknowledgement on the wire: a set is accepted when parse returns ''
+        return bool(outs) and outs[-1] == ('empty', None)
+
+    def is_acked_write(self, reg, line, outs):
+        return (('empty', None) in outs and {'att': 'ATT', 'swt': 'SWT'}[reg] in line) or ('none', None) in outs
+
+    def readback(self, system, reg, value):
+        ch, v = value
+        if reg == 'att':
+            o = feed(system, '#ATT %d?\n' % ch)
+            return '#%s\n' % (v * 0.25), (replies(o) or ['?'])[-1]
+        o = feed(system, '#SWT %d?\n' % ((ch + 7) % 96))
+        return '#%d\n' % v, (replies(o) or ['?'])[-1]
+
+
+# ---------------------------------------------------------------------------
+# gaia
+
+GAIA_ECHO = ['SETSG', 'SETSD', 'SETSGZ', 'SETSDZ', 'SAVECPU', 'RESETD', 'RESETG', 'SAVE', 'SETDF', 'SETGF',
+             'GETEF', 'ENABLE', 'DISABLE']
+
+
+class Gaia(Driver):
+    name = 'gaia'
+    alphabet = '#*IDN?LOADCONFSETGVRMP 0123456789\n-+_.\t'
+    terminators = '\n'
+    maxlen = None
+    corr_import = 'From DS Require Import Model.SmaCommon Corr.SmaGaiaCorr.'
+    ctype = 'gaia_case'
+    ctor = 'Build_gaia_case'
+    idle_discard_outcome = 'True'       # gaia answers True while discarding (quirk of its parse)
+    temp = 33
+
+    def new(self):
+        import simulators.gaia as m
+        t = self.temp
+        m.randint = lambda a, b: t      # GETEMP: randint(30, 36) fixed per case
+        return m.System()
+
+    def case_prefix(self, system):
+        return zlit(self.temp)
+
+    def case(self, data):
+        self.temp = 30 + (len(data) * 7 + sum(map(ord, data[:5]))) % 7
+        return Driver.case(self, data)
+
+    def is_header(self, ch):
+        return ch == '#'
+
+    def snapshot(self, s):
+        return '%s %s %s %s %s' % (zlist([ord(c) for c in s.msg]), zlist(s.VD), zlist(s.VG), zlit(s.conf),
+                                   zlist([ord(c) for c in s.cmd_id]))
+
+    def rid(self, rng):
+        return rng.choice(['1', '42', 'id7', 'abc', '0', 'X_9', '77'])
+
+    def valid_line(self, rng):
+        k = rng.randrange(12)
+        i = self.rid(rng)
+        ch = rng.randrange(1, 11)
+        if k < 2:
+            return '#SETD %d %d %s\n' % (ch, rng.choice([0, 1, 512, 1023, rng.randrange(1024)]), i)
+        if k < 4:
+            return '#SETG %d %d %s\n' % (ch, rng.randrange(1024), i)
+        if k == 4:
+            return '#GETVD %d %s\n' % (ch, i)
+        if k == 5:
+            return '#GETVG %d %s\n' % (ch, i)
+        if k == 6:
+            return '#LOADCONF %d %s\n' % (ch, i)
+        if k == 7:
+            return rng.choice(['#CONF? %s\n', '#*IDN? %s\n', '#NAME? %s\n']) % i
+        if k == 8:
+            return '#%s %d %s\n' % (rng.choice(GAIA_ECHO), ch, i)
+        if k == 9:
+            return '#%s %d %s\n' % (rng.choice(['GETREF', 'GETEMP']), rng.choice([1, 2]), i)
+        if k == 10:
+            return '#GETID %d %s\n' % (ch, i)
+        return '#GETVD %d %s\n' % (ch, i)
+
+    def odd_line(self, rng):
+        i = self.rid(rng)
+        return rng.choice([
+            '#', '##', '# ', '#  \t', '#FOO 1 %s', '#FOO', '#setd 1 1 %s', '#SETD', '#SETD %s', '#SETD 1 %s', '#SETD 1',
+            '#SETD 0 1 %s', '#SETD 11 1 %s', '#SETD -1 1 %s', '#SETD x 1 %s', '#SETD 1 x %s', '#SETD 1 1024 %s',
+            '#SETD 1 -1 %s', '#SETD 1 1 1 %s', '#SETD 1 1', '#SETD +1 +1 %s', '#SETD 1_0 1_0 %s', '#SETD 1. 1 %s',
+            '#SETD  2   7  %s', '##SETD 3 9 %s', '#\tSETD 4 5 %s', '#SETD\t4\t6\t%s', '# SETD 5 5 %s ', '#SETD 01 007 %s',
+            '#SETG 11 1 %s', '#SETG 1 9999 %s', '#SETG 1 %s', '#GETVD %s', '#GETVD', '#GETVD 0 %s', '#GETVD 11 %s',
+            '#GETVD x %s', '#GETVD 1 2 %s', '#GETVD 1', '#GETREF 3 %s', '#GETREF 0 %s', '#GETEMP 3 %s', '#GETEMP %s',
+            '#*IDN?', '#*IDN? 1 %s', '#CONF?', '#CONF? 1 2', '#NAME?', '#NAME? a b', '#LOADCONF 11 %s', '#LOADCONF %s',
+            '#LOADCONF 0 %s', '#LOADCONF', '#GETID 99 %s', '#ENABLE %s', '#ENABLE 1 2 %s', '#SETD#1 1 %s', '#SETD 1#1 %s',
+            '#SETD 1 1 #%s', '#SAVE 5', '#GETVG -3 %s', '#\x85SETD\xa01 1 %s', '#SETD\x1f1\x1c2 %s',
+        ]).replace('%s', i) + '\n'
+
+    def queries(self):
+        i = 'q1'
+        return ['#*IDN? %s\n' % i, '#NAME? %s\n' % i, '#CONF? %s\n' % i] + \
+            ['#GETVD %d %s\n' % (c, i) for c in range(1, 11)] + ['#GETVG %d %s\n' % (c, i) for c in range(1, 11)] + \
+            ['#GETID %d %s\n' % (c, i) for c in (1, 10)] + ['#GETREF %d %s\n' % (c, i) for c in (1, 2)] + \
+            ['#GETEMP %d %s\n' % (c, i) for c in (1, 2)] + ['#GETEF 3 %s\n' % i]
+
+    def wf_reply(self, r):
+        import re
+        return bool(re.fullmatch(r"#(ERROR\(\d{4}\)\[[A-Z_]+\]\(b'[0-9a-f]+'\)|[^\n]*) [^\s]*\n", r))
+
+    def echo_ok(self, q, r):
+        return r.endswith(' ' + q.split()[-1] + '\n')
+
+    registers = ('vd', 'vg', 'conf')
+
+    def sample_write(self, rng, reg):
+        r = rng.random()
+        i = self.rid(rng)
+        cmd = dict(vd='SETD', vg='SETG', conf='LOADCONF')[reg]
+        if reg == 'conf':
+            if r < 0.55:
+                x = rng.randrange(1, 11)
+                return '#LOADCONF %d %s\n' % (x, i), 'in', (x,)
+            return rng.choice(['#LOADCONF 0 %s', '#LOADCONF 11 %s', '#LOADCONF x %s', '#LOADCONF %s', '#LOADCONF 1 2 %s',
+                               '#LOADCONF -1 %s']).replace('%s', i) + '\n', 'out', None
+        if r < 0.55:
+            x, y = rng.randrange(1, 11), rng.randrange(1024)
+            return '#%s %d %d %s\n' % (cmd, x, y, i), 'in', (x, y)
+        return rng.choice(['#C 0 1 %s', '#C 11 1 %s', '#C 1 1024 %s', '#C 1 -1 %s', '#C x 1 %s', '#C 1 x %s', '#C 1 %s',
+                           '#C %s', '#C 1 1 1 %s', '#C 1.0 1 %s']).replace('C', cmd).replace('%s', i) + '\n', 'out', None
+
+    def is_ack(self, outs):       # acknowledged = a non-error reply echoing the first argument
+        return bool(outs) and outs[-1][0] == 'reply' and not outs[-1][1].startswith('#ERROR')
+
+    def is_acked_write(self, reg, line, outs):
+        cmd = dict(vd='SETD', vg='SETG', conf='LOADCONF')[reg]
+        return cmd in line and any(t == 'reply' and not p.startswith('#ERROR') for t, p in outs)
+
+    def readback(self, system, reg, value):
+        if reg == 'conf':
+            o = feed(system, '#CONF? rb\n')
+            return '#%d rb\n' % value[0], (replies(o) or ['?'])[-1]
+        x, y = value
+        o = feed(system, '#GET%s %d rb\n' % (reg.upper(), x))
+        return '#%d rb\n' % y, (replies(o) or ['?'])[-1]
+
 DRIVERS = {}
 
 
 def driver(name):
     if name not in DRIVERS:
-        DRIVERS[name] = {'calmux': Calmux, 'ifd': Ifd}[name]()
+        DRIVERS[name] = {'calmux': Calmux, 'ifd': Ifd, 'ifd14': Ifd14, 'gaia': Gaia}[name]()
     return DRIVERS[name]
 
 
@@ -489,12 +709,14 @@ def correspondence(ctx, sim, prop):
     rng = ctx.rng
     mix = MIX[prop]
     kinds = [k for k, w in mix.items() for _ in range(w)]
-    total = ctx.n(300, 6000)
+    total = int(ctx.n(300, 6000) * getattr(drv, 'corr_scale', 1.0))
     cases = []
     streams = corpus_streams(drv)
     if prop == 'c02':       # history, resync, whole catalogue
         for _ in range(total // 4):
-            streams.append(drv.stream(rng, rng.choice(kinds)) + drv.terminators[0] + ''.join(drv.queries()))
+            qs = drv.queries()
+            streams.append(drv.stream(rng, rng.choice(kinds)) + drv.terminators[0]
+                           + ''.join(qs if len(qs) <= 12 else rng.sample(qs, 12)))
     while len(streams) < total:
         streams.append(drv.stream(rng, rng.choice(kinds)))
     for data in streams:
